@@ -262,8 +262,8 @@ def model_t(x):
 def main():
     chk = Check("C15", __doc__)
     LS = 9
-    ir = (-3, 20) if chk.tier == "quick" else (-100, 100)
-    LD = 3 if chk.tier == "quick" else 4
+    ir = (-30, 60) if chk.tier == "quick" else (-300, 300)
+    LD = 4 if chk.tier == "quick" else 5
     chk.bounds = {"word family": f"every string of length 0..{LS} over {len(LETTERS + EXTRA)} symbols {LETTERS + EXTRA!r}",
                   "numeric family": f"every string of length 1..{LD} over {DIGITS!r} (leading zeros, non-ASCII digit characters)",
                   "int values": list(ir), "pairs": "all 9 ordered pairs on both string families and ints 1..12"}
